@@ -54,6 +54,22 @@ type stepOpts struct {
 	errorType   string            // Lean type of Go `error` in this unit ("" = Option GoErr, format string only)
 	errorImpls  map[string]string // struct type -> Lean function turning a value of it into an error
 	stringTypes map[string]bool   // named string types (type T string) translated as String
+	// phase 7 (gotrans_reg.go)
+	keyedMaps     bool                 // maps keyed by int / an opaque comparable type (GoMapK)
+	globals       []string             // package-level variables that become explicit in/out state of the functions using them
+	typeParamTy   string               // Go type (an opaque one) that stands for a type parameter's reflect.Type; "" = type parameters unsupported
+	methodExterns map[string]methodExt // "T.m": a method of an opaque type as a prelude function
+	// phase 7, second part (gotrans_tc.go)
+	intPtr      bool              // *int is Option Int: nil tests, *p (nil panics), &x of a local int
+	builders    bool              // strings.Builder as a String accumulator (Reset / WriteString / String)
+	rangeOracle map[string]string // map type -> external that gives the (unspecified) order in which a locally built map is ranged over
+	sortStable  bool              // sort.SliceStable(xs, func(i, j int) bool {…}) with a comparator over xs[i], xs[j]
+}
+
+type methodExt struct {
+	lean    string
+	result  *gty
+	partial bool // returns Option: none is the outcome panic
 }
 
 // valueStructsNow: the value structs of the unit being built (isObject is a free function).
@@ -157,6 +173,16 @@ func (c *fnCtx) stepExpr(e ast.Expr, want *gty) (string, *gty, bool) {
 	}
 	if u.step.errorType != "" {
 		if s, t, ok := c.errExpr(e, want); ok {
+			return s, t, true
+		}
+	}
+	if u.step.methodExterns != nil {
+		if s, t, ok := c.regExpr(e, want); ok {
+			return s, t, true
+		}
+	}
+	if u.step.intPtr || u.step.builders {
+		if s, t, ok := c.tcExpr(e, want); ok {
 			return s, t, true
 		}
 	}
@@ -343,6 +369,9 @@ func (c *fnCtx) stepStmt(ind int, s ast.Stmt) bool {
 	if c.u.step.errorType != "" && c.errStmt(ind, s) {
 		return true
 	}
+	if (c.u.step.builders || c.u.step.sortStable) && c.tcStmt(ind, s) {
+		return true
+	}
 	switch v := s.(type) {
 	case *ast.RangeStmt:
 		if v.Key == nil || exprString(v.Key) == "_" || v.Tok != token.DEFINE {
@@ -432,7 +461,7 @@ func rootIdent(e ast.Expr) string {
 func (c *fnCtx) stepAssignTo(ind int, lhs ast.Expr, rhs string, pos token.Pos) bool {
 	switch l := lhs.(type) {
 	case *ast.SelectorExpr:
-		if inner, ok := l.X.(*ast.SelectorExpr); ok && c.u.step.errorType != "" {
+		if inner, ok := l.X.(*ast.SelectorExpr); ok && (c.u.step.errorType != "" || c.u.step.builders) {
 			// x.a.f = v where x.a is a struct held by value: x.a = { x.a with f := v }
 			if t := c.typeOnly(inner); t.kind == "named" && c.u.step.valueStructs[t.name] {
 				xs, _ := c.expr(inner, nil)
@@ -513,6 +542,8 @@ func (c *fnCtx) stepInoutParams(names []string, tys []*gty) []inoutParam {
 		}
 		t := tys[i]
 		switch {
+		case c.isGlobalName(n):
+			out = append(out, inoutParam{name: n, lean: c.lookup(n).lean, ty: t, idx: i, kind: "global"})
 		case t.kind == "named" && c.u.step.objParams[t.name]:
 			out = append(out, inoutParam{name: n, lean: c.lookup(n).lean, ty: t, idx: i, kind: "obj"})
 			c.u.noteAssume("the parameter " + n + " *" + t.name + " is an in/out parameter: method calls on it write the new object back, the final object is a component of the result (the caller holds the only pointer that is used while the call runs)")
